@@ -200,7 +200,7 @@ func (c *vCase) Bubble(f func()) {
 		// synctest reports goroutines left blocked in the bubble by panicking in
 		// the caller; vLeftover has already recorded them with their stacks
 		if r := recover(); r != nil {
-			if s, ok := r.(string); ok && strings.Contains(s, "blocked goroutines remain") && c.leftover {
+			if strings.Contains(fmt.Sprint(r), "blocked goroutines remain") && c.leftover {
 				return
 			}
 			panic(r)
